@@ -113,11 +113,11 @@ Definition updateX (dt : t) (bounds psd nf : list t) (nucRate Rnuc : t) : list t
    The new boundaries (np.linspace) and the re-meshed distribution are the subject of C08; here they are data *)
 Inductive adjust := Keep | Extend (k : nat) (bounds' : list t) | Remesh (bounds' psd' : list t).
 
-(* UpdatePBMEuler (PSD[PSD < 1] = 0) followed by adjustSizeClassesEuler *)
-Definition adjusted (a : adjust) (bounds x : list t) : list t * list t :=
+(* adjustSizeClassesEuler applied to the stored distribution [xs] (already truncated and zeroed below the thresholds) *)
+Definition adjusted (a : adjust) (bounds xs : list t) : list t * list t :=
   match a with
-  | Keep => (bounds, truncate O x)
-  | Extend k b' => (b', truncate O x ++ zerosN k)
+  | Keep => (bounds, xs)
+  | Extend k b' => (b', xs ++ zerosN k)
   | Remesh b' p' => (b', p')
   end.
 
@@ -133,10 +133,17 @@ Record pin := mkPin {
   p_adjust : adjust; p_rdfi' : nat            (* grid change after the step, RdrivingForceIndex after it *)
 }.
 
-(* the distribution handed to _calcMassBalance: new distribution after _processX *)
+(* every derivative evaluation starts with _processX on the state it is handed (KWNBase._calculateDependentTerms), in place: the
+   state the iterator advances is the start state with the classes up to RdrivingForceIndex / below minRadius emptied.  Since kawin
+   commit "fix: remove particles below the stability thresholds before the size classes are re-meshed" the stored distribution can
+   hold particles there right after a re-mesh, so this zeroing is not a no-op *)
+Definition startX (minR : t) (p : pin) : list t :=
+  processX O (p_rdfi p) minR (mids O (p_bounds p)) (p_psd p).
+
+(* the distribution handed to _calcMassBalance: zeroed start state, flux step, _processX again *)
 Definition newX (dt minR : t) (p : pin) : list t :=
   processX O (p_rdfi p) minR (mids O (p_bounds p))
-           (updateX dt (p_bounds p) (p_psd p) (p_nf p) (p_nucRate p) (p_Rnuc p)).
+           (updateX dt (p_bounds p) (startX minR p) (p_nf p) (p_nucRate p) (p_Rnuc p)).
 
 Definition phaseIn (dt minR : t) (p : pin) : phase_in O :=
   mkPhaseIn O (p_volRatio p) (p_volFactor p) (newX dt minR p) (mids O (p_bounds p)) (p_xbeta p)
@@ -147,11 +154,11 @@ Definition kwnRecord (dt minR minDens minComp : t) (x0 prevComp : list t) (ps : 
   : list (phase_out O) * list t :=
   massBalance O minDens minComp x0 prevComp (map (phaseIn dt minR) ps).
 
-(* the distribution stored for the next step: truncation, grid adjustment, zeroing below the thresholds
-   (_updateParticleSizeDistribution) *)
+(* the distribution stored for the next step (_updateParticleSizeDistribution): UpdatePBMEuler (PSD[PSD < 1] = 0), zeroing below
+   the thresholds ON THE GRID OF THE STEP with the index in force after the growth rate was refreshed, then the grid adjustment *)
 Definition kwnStore (dt minR : t) (p : pin) : list t * list t :=
-  let bp := adjusted (p_adjust p) (p_bounds p) (newX dt minR p) in
-  (fst bp, processX O (p_rdfi' p) minR (mids O (fst bp)) (snd bp)).
+  adjusted (p_adjust p) (p_bounds p)
+           (processX O (p_rdfi' p) minR (mids O (p_bounds p)) (truncate O (newX dt minR p))).
 
 (* ---- nucleation terms of one phase (KWNBase._calcNucleationRate) --------------------------------- *)
 (* the classical-nucleation formulas (C14) are oracle values; what is modelled is which recorded terms are
